@@ -1,0 +1,99 @@
+//go:build verif
+
+package cache
+
+// Contracts for the govc verifier (/verif/DESIGN.md). This file holds a package clause and comments
+// only: with the build tag off it does not exist for the compiler, with the tag on it compiles to
+// nothing. Every //@ line is read by /verif/bin/govc; the obligations they generate are discharged
+// against the go/ssa form of the real functions in this package on every run.
+
+//@ import list "container/list"
+
+// ---- abstract view and representation invariant of Sieve ------------------------------------------
+
+//@ pure func has(s *Sieve[K,V], k K) bool { k in s.store }
+//@ pure func val(s *Sieve[K,V], k K) V { s.store[k].value }
+
+//@ pure func inv(s *Sieve[K,V]) bool {
+//@   s.stats.size != nil && s.stats.hits != nil && s.stats.misses != nil
+//@   && s.stats.hits != s.stats.size && s.stats.misses != s.stats.size
+//@   && s.stats.Capacity >= 1 && s.queue != nil && s.store != nil
+//@   && len(s.store) == s.queue.n && s.queue.n == s.stats.size.val && s.queue.n <= s.stats.Capacity
+//@   && (forall e *list.Element :: e != nil && e.owner == s.queue ==>
+//@         typeof(e.Value) == K && e.Value.(K) in s.store && s.store[e.Value.(K)].element == e)
+//@   && (forall k K :: k in s.store ==>
+//@         s.store[k] != nil && s.store[k].element != nil && s.store[k].element.owner == s.queue
+//@         && s.store[k].element.Value == any(k) && s.store[k].key == k)
+//@   && (s.hand == nil || s.hand.owner == s.queue)
+//@ }
+
+// ---- lock discipline --------------------------------------------------------------------------------
+
+//@ monitor Sieve.rwLock
+//@   guards Sieve.store, Sieve.queue, Sieve.hand, contents(Sieve.store), entry.value, entry.key, entry.element, list.List.n, list.Element.owner
+
+// ---- constructors -----------------------------------------------------------------------------------
+
+//@ func NewSieve(capacity int) Cache[K, V]
+//@   nomod
+//@   ensures isSieve: typeof(result) == *Sieve[K,V]
+//@   ensures inv: inv(result.(*Sieve[K,V]))
+//@   ensures empty: forall k K :: !has(result.(*Sieve[K,V]), k)
+//@   ensures cap: (capacity >= 1 ==> result.(*Sieve[K,V]).stats.Capacity == capacity) && (capacity <= 0 ==> result.(*Sieve[K,V]).stats.Capacity == 1)
+//@   ensures unlocked: held(result.(*Sieve[K,V]).rwLock, 0)
+
+// ---- public operations ------------------------------------------------------------------------------
+
+//@ func (s *Sieve[K,V]) Put(key K, value V)
+//@   requires s != nil && held(s.rwLock, 0) && inv(s)
+//@   modifies s.rwLock.state, s.hand, contents(s.store), s.queue.n, s.stats.size.val, all(list.Element.owner), all(entry.value), all(entry.visited.val)
+//@   ensures inv: inv(s)
+//@   ensures unlocked: held(s.rwLock, 0)
+//@   ensures bound: len(s.store) <= s.stats.Capacity && s.stats.size.val == len(s.store)
+//@   ensures stored: has(s, key) && val(s, key) == value
+//@   ensures others: forall j K :: j != key && has(s, j) ==> old(has(s, j)) && val(s, j) == old(val(s, j))
+//@   ensures oneVictim: forall a K; b K :: old(has(s, a)) && !has(s, a) && old(has(s, b)) && !has(s, b) ==> a == b
+//@   ensures update: old(has(s, key)) ==> (forall j K :: has(s, j) == old(has(s, j)))
+//@   ensures room: old(len(s.store)) < s.stats.Capacity ==> (forall j K :: has(s, j) == (old(has(s, j)) || j == key))
+
+//@ func (s *Sieve[K,V]) Get(key K) (V, bool)
+//@   requires s != nil && held(s.rwLock, 0) && inv(s)
+//@   modifies s.rwLock.state, s.stats.hits.val, s.stats.misses.val, all(entry.visited.val)
+//@   ensures inv: inv(s)
+//@   ensures unlocked: held(s.rwLock, 0)
+//@   ensures found: result.1 == has(s, key)
+//@   ensures value: has(s, key) ==> result.0 == val(s, key)
+//@   ensures unchanged: forall j K :: has(s, j) == old(has(s, j)) && (has(s, j) ==> val(s, j) == old(val(s, j)))
+
+//@ func (s *Sieve[K,V]) Delete(key K)
+//@   requires s != nil && held(s.rwLock, 0) && inv(s)
+//@   modifies s.rwLock.state, s.hand, contents(s.store), s.queue.n, s.stats.size.val, all(list.Element.owner)
+//@   ensures inv: inv(s)
+//@   ensures unlocked: held(s.rwLock, 0)
+//@   ensures gone: !has(s, key)
+//@   ensures others: forall j K :: j != key ==> has(s, j) == old(has(s, j)) && (has(s, j) ==> val(s, j) == old(val(s, j)))
+//@   ensures size: s.stats.size.val == len(s.store)
+
+// ---- helpers (called with the write lock held) ----------------------------------------------------------
+
+//@ func (s *Sieve[K,V]) putEntry(key K, value V)
+//@   requires s != nil && held(s.rwLock, 2) && inv(s) && !has(s, key)
+//@   modifies s.hand, contents(s.store), s.queue.n, s.stats.size.val, all(list.Element.owner), all(entry.visited.val)
+//@   ensures inv: inv(s)
+//@   ensures locked: held(s.rwLock, 2)
+//@   ensures stored: has(s, key) && val(s, key) == value
+//@   ensures others: forall j K :: j != key && has(s, j) ==> old(has(s, j)) && val(s, j) == old(val(s, j))
+//@   ensures oneVictim: forall a K; b K :: old(has(s, a)) && !has(s, a) && old(has(s, b)) && !has(s, b) ==> a == b
+//@   ensures room: old(len(s.store)) < s.stats.Capacity ==> (forall j K :: has(s, j) == (old(has(s, j)) || j == key))
+
+//@ func (s *Sieve[K,V]) evict()
+//@   requires s != nil && held(s.rwLock, 2) && inv(s) && s.queue.n >= 1
+//@   modifies s.hand, contents(s.store), s.queue.n, s.stats.size.val, all(list.Element.owner), all(entry.visited.val)
+//@   ensures inv: inv(s)
+//@   ensures locked: held(s.rwLock, 2)
+//@   ensures shrunk: s.queue.n == old(s.queue.n) - 1
+//@   ensures kept: forall j K :: has(s, j) ==> old(has(s, j)) && val(s, j) == old(val(s, j))
+//@   ensures oneVictim: forall a K; b K :: old(has(s, a)) && !has(s, a) && old(has(s, b)) && !has(s, b) ==> a == b
+//@   loop 0
+//@     invariant hand: hand != nil && hand.owner == s.queue
+//@     invariant entry: typeof(hand.Value) == K && hand.Value.(K) in s.store && entry == s.store[hand.Value.(K)] && entry != nil
